@@ -14,6 +14,8 @@ try:
     variants = []
     base = 'gcc -O1 -g %%s -w -DPOLYSEED_STATIC -I%s/include -iquote %s/src %s %s/src/*.c -o %s/demo-%%s -lutf8proc -lsodium -lpthread' % (wt, wt, os.path.join(d, 'demo.c'), wt, wt)
     tsan = '-fsanitize=thread' if ('fsanitize=thread' in demo or 'ThreadSanitizer' in demo) else ''
+    if '-funsigned-char' in demo:
+        tsan += ' -funsigned-char'
     for defs in ('-DNDEBUG ' + tsan, tsan):
         variants.append(base % (defs, '%s'))
     chosen = {}
